@@ -1,9 +1,18 @@
 """C08 — HTTP/1 responses are correctly framed on persistent connections."""
+import resource
 import sys
 
 import kv
 from kv import Case, xn, xb, xl, xlist, xbool, xparse, xtext
 from pipe import H, cfg
+
+# responses of more than a MiB go through the extracted (not tail-recursive) parser: give the model driver, a child of
+# this process, the stack the hard limit allows
+try:
+    _soft, _hard = resource.getrlimit(resource.RLIMIT_STACK)
+    resource.setrlimit(resource.RLIMIT_STACK, (_hard, _hard))
+except (ValueError, OSError):
+    pass
 
 ID = "C08"
 MODULE = "C08"
@@ -13,21 +22,30 @@ SENDQ = "forall (error_body : N -> option bytes -> bytes) (package : head -> hea
 CONNQ = ("forall (Q A : Type) (q_method : Q -> N) (q_content_length : Q -> option bytes) (q_known_host : Q -> bool) "
          "(q_head : Q -> bytes) (app : A -> Q -> A * reply0 * option N) (error_body : N -> option bytes -> bytes) "
          "(package : Q -> head -> head) (too_many_body : bytes), ")
+CLOSEQ = ("exists pre h post ss s, with_actions (c8_limit cfg) 1 reqs = pre ++ h :: post /\\ n = S (length pre) /\\ "
+          "c8_run_hs true true cfg (pre ++ [h]) = (map Some (ss ++ [s]), Closed) /\\ length ss = length pre /\\ "
+          "announced (hd_headers (st_head s)) = None /\\ assoc s_connection (hd_headers (st_head s)) = Some (B \"close\") /\\ "
+          "parse_closing (map (fun h => rq_method (q_req (h_q h))) (pre ++ [h])) (written (map Some (ss ++ [s]))) "
+          "= Some (map observable (ss ++ [s]))")
 THEOREMS = [
     ("framing_roundtrip",
      "forall l : list (N * sent), Forall (fun p => framed (fst p) (snd p)) l -> "
      "parse_responses (map fst l) (concat (map (fun p => wire (snd p)) l)) = Some (map (fun p => observable (snd p)) l)"),
     ("send_output_framed",
-     SENDQ + "forall (m : N) (r : reply0) (s : sent), reply_ok r -> send error_body package m r = Ok s -> framed m s"),
+     SENDQ + "forall (m : N) (r : reply0) (s : sent), reply_ok r -> unframed r = false -> send error_body package m r = Ok s -> framed m s"),
     ("send_total",
      SENDQ + "forall (m : N) (r : reply0), reply_ok r -> exists s, send error_body package m r = Ok s"),
     ("length_is_body",
-     SENDQ + "forall (m : N) (r : reply0) (s : sent), reply_ok r -> m <> M_HEAD -> send error_body package m r = Ok s -> "
+     SENDQ + "forall (m : N) (r : reply0) (s : sent), reply_ok r -> unframed r = false -> m <> M_HEAD -> send error_body package m r = Ok s -> "
      "announced (hd_headers (st_head s)) = Some (N.of_nat (length (st_body s)))"),
     ("head_has_no_body",
      SENDQ + "forall (r : reply0) (s : sent), reply_ok r -> send error_body package M_HEAD r = Ok s -> "
      "st_body s = [] /\\ exists g, send error_body package M_GET r = Ok g /\\ st_head g = st_head s /\\ "
-     "announced (hd_headers (st_head s)) = Some (N.of_nat (length (st_body g)))"),
+     "(unframed r = false -> announced (hd_headers (st_head s)) = Some (N.of_nat (length (st_body g))))"),
+    ("unframed_stream_is_close_delimited",
+     SENDQ + "forall (m : N) (r : reply0) (s : sent), reply_ok r -> unframed r = true -> send error_body package m r = Ok s -> "
+     "close_framed m s /\\ assoc s_connection (hd_headers (st_head s)) = Some (B \"close\") /\\ "
+     "announced (hd_headers (st_head s)) = None"),
     ("one_response_per_request",
      CONNQ[:-2] + " (I : A -> Prop), app_ok Q A app I -> packages_ok Q package -> forall (hs : list (hreq Q)) (a : A), I a -> "
      "Forall (polite Q q_method q_content_length q_known_host) hs -> exists ss : list sent, "
@@ -35,6 +53,19 @@ THEOREMS = [
      "= (map Some ss, Open []) /\\ length ss = length hs /\\ "
      "serve_seq Q A q_method app error_body package too_many_body true a hs = map Ok ss /\\ "
      "parse_responses (map (fun h => q_method (h_q h)) hs) (written (map Some ss)) = Some (map observable ss)"),
+    ("closing_history",
+     CONNQ + "packages_ok Q package -> forall (hs : list (hreq Q)) (a : A) (h : hreq Q), "
+     "run_ok Q A app a hs -> Forall (polite Q q_method q_content_length q_known_host) (hs ++ [h]) -> h_action h = APassed -> "
+     "reply_ok (snd (fst (app (app_after Q A app a hs) (h_q h)))) -> "
+     "unframed (snd (fst (app (app_after Q A app a hs) (h_q h)))) = true -> "
+     "exists (ss : list sent) (s : sent), "
+     "conn_run Q A q_method q_content_length q_known_host q_head app error_body package too_many_body true true a (Open []) (hs ++ [h]) "
+     "= (map Some (ss ++ [s]), Closed) /\\ length ss = length hs /\\ "
+     "announced (hd_headers (st_head s)) = None /\\ assoc s_connection (hd_headers (st_head s)) = Some (B \"close\") /\\ "
+     "parse_closing (map (fun h => q_method (h_q h)) (hs ++ [h])) (written (map Some (ss ++ [s]))) = Some (map observable (ss ++ [s]))"),
+    ("stream_body_announces",
+     "forall (content : bytes) (r : request), fst (stream_body_future true content r) = "
+     "Some (N.of_nat (length (concat (snd (stream_body_future true content r)))))"),
     ("unread_body",
      "forall (Q : Type) (q_method : Q -> N) (q_content_length : Q -> option bytes) (h : hreq Q) (lim : option N), "
      "let declared := body_length (q_method (h_q h)) (q_content_length (h_q h)) in "
@@ -50,6 +81,9 @@ THEOREMS = [
      "length ss = length (with_actions (c8_limit cfg) 1 reqs) /\\ "
      "parse_responses (map (fun h => rq_method (q_req (h_q h))) (with_actions (c8_limit cfg) 1 reqs)) "
      "(written (map Some ss)) = Some (map observable ss)"),
+    ("checked_closing_history_is_instance",
+     "forall (cfg : c8cfg) (reqs : list (c8req * bytes * nat)) (n : nat), "
+     "c8_hyps_closing cfg (c8_state0 cfg) (with_actions (c8_limit cfg) 1 reqs) O = Some n -> " + CLOSEQ),
     ("closed_is_silent",
      CONNQ[:-2] + " (drain head_rule : bool) (hs : list (hreq Q)) (a : A), "
      "conn_run Q A q_method q_content_length q_known_host q_head app error_body package too_many_body drain head_rule a Closed hs "
@@ -73,45 +107,86 @@ THEOREMS = [
      "parse_responses [M_HEAD; M_GET] (wire (limited TOO_MANY false M_HEAD) ++ wire (limited TOO_MANY false M_GET)) = None /\\ "
      "option_map (map p_status) (parse_responses [M_HEAD; M_GET] (wire (limited TOO_MANY true M_HEAD) ++ "
      "wire (limited TOO_MANY true M_GET))) = Some [429; 429]"),
-    ("bodyless_status_with_body_refuted",
-     "exists r s, send hardcoded_error_body (fun h => h) M_GET r = Ok s /\\ r0_status r = 204 /\\ r0_body r <> [] /\\ "
-     "parse_responses [M_GET] (wire s) = None"),
+    ("bodyless_status_with_body_v0_refuted",
+     "(exists s, w_send_v0 M_GET w_204 = Ok s /\\ parse_responses [M_GET] (wire s) = None) /\\ "
+     "(exists s, w_send M_GET w_204 = Ok s /\\ st_body s = [] /\\ "
+     "option_map (map p_status) (parse_responses [M_GET] (wire s)) = Some [204])"),
+    ("head_stream_v0_refuted",
+     "parse_responses [M_HEAD; M_GET] (w_pair w_send_v0 w_stream) = None /\\ "
+     "option_map (map (fun p => (p_status p, p_body p))) (parse_responses [M_HEAD; M_GET] (w_pair w_send w_stream)) "
+     "= Some [(200, []); (200, B \"hello world\")]"),
+    ("unframed_stream_v0_refuted",
+     "(exists s, w_send_v0 M_GET w_nolen = Ok s /\\ announced (hd_headers (st_head s)) = None /\\ "
+     "assoc s_connection (hd_headers (st_head s)) = Some s_keep_alive /\\ parse_responses [M_GET] (wire s) = None) /\\ "
+     "(exists s, w_send M_GET w_nolen = Ok s /\\ assoc s_connection (hd_headers (st_head s)) = Some (B \"close\") /\\ "
+     "option_map (map p_body) (parse_closing [M_GET] (wire s)) = Some [B \"abcdefg\"])"),
+    ("te_with_length_v0_refuted",
+     "(exists s, w_send_v0 M_GET w_te = Ok s /\\ parse_responses [M_GET] (wire s) = None) /\\ "
+     "(exists s, w_send M_GET w_te = Ok s /\\ option_map (map p_body) (parse_responses [M_GET] (wire s)) = Some [B \"with te\"])"),
+    ("stream_body_range_v0_refuted",
+     "exists content r, fst (stream_body_future false content r) <> "
+     "Some (N.of_nat (length (concat (snd (stream_body_future false content r)))))"),
 ]
-RULE = ("(a) histories of 1-12 requests on ONE loopback connection handled by the public kvarn::handle_connection (thorough: also by a "
-        "RunConfig::execute server on a loopback port), each request sent after the previous response was read: GET/HEAD/POST/OPTIONS/PUT x "
-        "existing files (20 B, 3 kB, empty, index.html, in a directory) / missing / '/' / unsafe path / 12 handler-backed paths (static, "
-        "compressible, 204, 500, counter, echo, body readers read_to_bytes(1000) and (5), handlers that set connection: close / upgrade or a "
-        "false content-length) x Accept-Encoding (gzip, br, zstd, identity, *, q-values) x Range (satisfiable, single byte, open, beyond the "
-        "end, reversed, other unit) x If-Modified-Since (fresh, stale, garbage) x Origin x response cache on/off x default extensions on/off x "
-        "limiter off / max 4-6 (429 answers) x request bodies of 0..70000 bytes read / read in part / unread, arriving with the head, after it, "
-        "or split; HEAD/GET pairs of one resource; an unknown Host (409 + close) as last request. EVERY byte received is given to the extracted "
-        "Coq parse_responses (oracle: exactly one well-formed response per request, in order, nothing left over, connection still usable, HEAD "
-        "announces GET's length) and the parsed list is compared with the model's prediction (version, status, reason, content-range, "
-        "accept-ranges, connection, x-tag, reason headers, body; for a content-coded answer the decoded body, and only the framing when a "
-        "range of a coded representation was asked (incl. its 416 when the coded form is shorter than the range start); answers of the CORS / 406 machinery are framed but not predicted). (b) kvarn_async::write::"
-        "response called directly on random version/status/headers/body against print_response, byte for byte. distinct_nontrivial counts "
-        "distinct model outputs")
+RULE = ("(a) histories of 1-12 requests on ONE loopback connection handled by the public kvarn::handle_connection (6 quick / 1000 thorough also "
+        "by a RunConfig::execute server on a loopback port taken from the kernel), each request sent after the previous response was read: "
+        "GET/HEAD/POST/OPTIONS/PUT/DELETE/PATCH/TRACE/CONNECT x existing files (20 B, 3 kB, empty, index.html, in a directory; in some histories "
+        "70 kB, in two 1.3 MB) / missing / '/' / unsafe path / 16 handler-backed paths (static, compressible, 204, 500, counter, echo, body "
+        "readers read_to_bytes(1000) and (5), handlers that set connection: close / upgrade, a false content-length, a BODY on 204 and on 304, "
+        "transfer-encoding: chunked on a whole body, a 2.9 kB head) / 8 STREAMING paths (kvarn's stream_body() on files of 33 B, 0 B, 70 kB, 1.3 MB "
+        "and on a missing file; with_future_and_len of 11 and 0 bytes; with_future WITHOUT a length) x Accept-Encoding (gzip, br, zstd, identity, "
+        "*, q-values) x Range (satisfiable, single byte, open, at / beyond the end, reversed, other unit) x If-Modified-Since (fresh, stale, "
+        "garbage) x Origin x response cache on/off x default extensions on/off x limiter off / max 4-6 (429 answers) / max 1-3 crossed up to the "
+        "drop level x request bodies of 0..70000 bytes (incl. 4095/4096/4097/8192 and such that exactly one or two 4096-byte windows stay "
+        "unread) read / read in part / unread, arriving with the head, after it, or split x request heads of EVERY length class around the "
+        "server's reads (505-519, 1019-1029, 1535-1537, 2045-2051, 3071-3073, 4093-4099, 8191-8193, 512k and 512k+1, random up to 9000; thorough: "
+        "every length 200..4200) x head written at once / byte by byte / in pieces of 2, 3, 7, 64 bytes / with the last 1-4 bytes (the blank "
+        "line) in a segment of their own x HTTP/1.1 and HTTP/1.0 request lines x server socket with the kernel's or a 4 kB send buffer (short "
+        "writes); HEAD/GET pairs of one resource; an unknown Host (409 + close) as last request; a stream of unknown length anywhere (it is the "
+        "last answer: the server closes). EVERY byte received is given to the extracted Coq parse_responses - parse_closing when the history "
+        "meets a stream of unknown length - (oracle: exactly one well-formed response per request, in order, nothing left over, connection "
+        "still usable / closed by the server after the length-less stream whose head says connection: close, HEAD announces GET's length); a "
+        "request that gets no answer within 8 s is run again on a fresh host, and is a VIOLATION with the history as replay when it gets none "
+        "in 3 attempts. The parsed list is compared with the model's prediction (version, status, content-range, accept-ranges, connection, "
+        "x-tag, reason headers, body; error pages by class, reason phrases not at all; for a content-coded answer the decoded body, and only "
+        "the framing when a range of a coded representation was asked; answers of the CORS / 406 machinery are framed but not predicted). "
+        "(b) kvarn_async::write::response called directly on random version/status/headers/body (heads up to 5 kB) against print_response, byte "
+        "for byte up to the reason phrase. distinct_nontrivial counts distinct model outputs")
 ASSUMPTIONS = [
     "theorems are about any application (handle_cache and below) that keeps a state invariant under which its replies are reply_ok; "
-    "for the fixture host this is checked per generated history by the executable c8_hyps, whose soundness is proved "
-    "(checked_history_is_instance; the count is in coverage.histories_that_are_instances_of_the_connection_theorem). reply_ok: what handle_cache returns satisfies the http crate's invariants (status 100..999, lower-case token names, values without "
-    "CR/LF, no transfer-encoding, not HTTP/0.9), a 1xx/204/304 reply has an empty body (bodyless_status_with_body_refuted shows kvarn sends "
-    "a handler's 204 body), the range comes from sanitize_request (start < end); Package extensions leave version, status and "
-    "content-length alone and add no transfer-encoding; Post extensions and streaming futures (with_future: WebSocket, SSE) write nothing "
-    "to the body pipe - responses with a future are outside the model",
+    "for the fixture host this is checked per generated history by the executable c8_hyps / c8_hyps_closing, whose soundness is proved "
+    "(checked_history_is_instance, checked_closing_history_is_instance; the counts are in coverage.histories_that_are_instances_of_the_"
+    "connection_theorem / _closing_theorem). reply_ok: what handle_cache returns satisfies the http crate's invariants (status 100..999, "
+    "lower-case token names, values without CR/LF, not HTTP/0.9), the range comes from sanitize_request (start < end), and for a reply with "
+    "a future (stream_body, with_future): it is not a 1xx/204/304 (protocol switches such as WebSocket are outside), the length it "
+    "announces is the number of bytes its body and its future write (proved for stream_body: stream_body_announces; a handler's own "
+    "future is trusted to keep its word), and a stream of unknown length carries no transfer-encoding / content-length of the handler's "
+    "own (a handler that chunk-encodes by hand, as the reverse proxy does for a chunked upstream on HTTP/1, frames its body itself: outside "
+    "the model). No longer assumed, because send now repairs it: an empty body on 1xx/204/304, no transfer-encoding beside a known length. "
+    "Package extensions leave version, status and content-length alone and add no transfer-encoding; Post extensions write nothing to the "
+    "body pipe",
     "the client of the connection theorem is 'polite': configured Host, not beyond the limiter's drop level (3 x max_requests: the "
-    "connection is closed by design, C12), and it sends exactly the body its request declares, where the declared length is kvarn's "
-    "get_body_length_request: 0 for GET/HEAD/OPTIONS/CONNECT/TRACE whatever content-length says (a GET that carries a body is outside)",
-    "the request reader (kvarn_async::read::request) is C07's; here a request is a parsed head plus body bytes with an early/late split",
+    "connection is closed by design, C12; run against the model in the history-limiter-drop cases), and it sends exactly the body its "
+    "request declares, where the declared length is kvarn's get_body_length_request: 0 for GET/HEAD/OPTIONS/CONNECT/TRACE whatever "
+    "content-length says (a GET or TRACE that carries a body is outside)",
+    "a response that announces no length cannot be followed by another on the same connection: after it the property's 'one response per "
+    "request' holds for the requests up to and including that one (closing_history); the server says connection: close and closes",
+    "the request reader (kvarn_async::read::request) is C07's; here a request is a parsed head plus body bytes with an early/late split; "
+    "that the reader finds the end of every head whatever its length and segmentation is tested (head-length sweeps), not proved here",
+    "kvarn closes a connection on which no request arrives for 5 s: the client of the run never idles that long (final-state waits are "
+    "2.5 s at most)",
     "the executable prediction reuses Model/Cache.v + Model/Fixture.v (C03/C04) for handle_cache; content negotiation is not predicted "
-    "(the harness decodes coded bodies with flate2/brotli/zstd), last-modified / vary / cache-control / content-type are not compared",
+    "(the harness decodes coded bodies with flate2/brotli/zstd), last-modified / vary / cache-control / content-type are not compared; "
+    "the order of headers of different names after HeaderMap::remove (swap-remove) is not modelled, no statement depends on it",
 ]
-TRUSTED = ["modelled: async/src/lib.rs write::response; src/lib.rs SendKind::send (range, ensure_length, ensure_version, resolve_package, body "
-           "rule), handle_connection request loop (409, limiter Send/Drop, sequential HTTP/1 handling, drain); src/application.rs "
-           "ResponsePipe::send_response (connection header), ensure_length/ensure_version, Http1Body::{read_to_bytes accounting, drain}; "
-           "utils set_content_length, method_has_response_body, get_body_length_request, hardcoded_error_body; http::StatusCode::canonical_reason table",
+TRUSTED = ["modelled: async/src/lib.rs write::response; src/lib.rs SendKind::send (bodyless statuses, range, ensure_length, ensure_version, "
+           "resolve_package, body rule, the future's writes and the HEAD rule for them), handle_connection request loop (409, limiter Send/Drop, "
+           "sequential HTTP/1 handling, drain, close after a stream of unknown length); src/application.rs ResponsePipe::send_response "
+           "(connection header incl. close for a head without a length), ensure_length (removes transfer-encoding) / ensure_version, "
+           "Http1Body::{read_to_bytes accounting, drain}; src/extensions.rs stream_body (range clamp, announced length, bytes sent); utils "
+           "set_content_length, method_has_response_body, get_body_length_request, hardcoded_error_body; http::StatusCode::canonical_reason table",
            "the second stage of the run (driver/props/c08.py) hands the harness's raw bytes to the extracted parser; the harness's own "
-           "lenient framing only paces the requests"]
+           "lenient framing only paces the requests",
+           "the fixture futures of harness/src/c08.rs (with_future / with_future_and_len writing fixed chunks) behave as the model's chunk lists"]
 EXHAUSTIVE = False
 IMPL_SHARDS = 16
 PER_SHARD = 8
@@ -123,8 +198,19 @@ METHOD_CODE = {b"GET": 0, b"HEAD": 1, b"POST": 2, b"OPTIONS": 3}
 
 BIG = bytes((97 + (i * 7) % 26) if i % 11 else 10 for i in range(3000))
 F20 = b"0123456789abcdefghij"
+SFILE = b"streamed file content: 0123456789"
+
+
+def _blob(n, k):
+    return bytes((65 + ((i * k) ^ (i >> 7)) % 57) if i % 61 else 10 for i in range(n))
+
+
+M70 = _blob(70000, 7)            # more than the 64 KiB chunk of stream_body and than one socket write
+HUGE = _blob(1300000, 11)        # more than a socket buffer takes at once
 FILES = [(b"public/f.txt", F20), (b"public/big.txt", BIG), (b"public/e.txt", b""), (b"public/index.html", b"<html><body>index page</body></html>"),
-         (b"public/dir/g.txt", b"file g in dir")]
+         (b"public/dir/g.txt", b"file g in dir"), (b"public/s/file.txt", SFILE), (b"public/s/e.txt", b"")]
+FILES_M = FILES + [(b"public/m.bin", M70), (b"public/s/big.bin", M70)]
+FILES_HUGE = FILES + [(b"public/huge.bin", HUGE), (b"public/s/huge.bin", HUGE)]
 HANDLERS = [
     H(b"/h/a", body=b"handler-a says hello", headers=[(b"content-type", b"text/plain"), (b"x-tag", b"A")], compress=False),
     H(b"/h/c", body=b"compressible " * 40, headers=[(b"content-type", b"text/plain")], compress=True),
@@ -138,27 +224,83 @@ HANDLERS = [
     H(b"/h/x", body=b"says close", headers=[(b"content-type", b"text/plain"), (b"connection", b"close"), (b"x-tag", b"X")], spref=0, compress=False),
     H(b"/h/u", body=b"says upgrade", headers=[(b"content-type", b"text/plain"), (b"connection", b"upgrade")], spref=2, compress=False),
     H(b"/h/l", body=b"lies about its length", headers=[(b"content-type", b"text/plain"), (b"content-length", b"999")], spref=0, compress=False),
+    # what a careless handler or a proxied upstream may hand over: a body on 204 / 304, transfer-encoding on a whole body
+    H(b"/h/n2", status=204, body=b"oops: a body on 204", headers=[(b"x-tag", b"N2")], spref=0, compress=False),
+    H(b"/h/nm", status=304, body=b"oops: a body on 304", headers=[(b"x-tag", b"NM")], spref=0, compress=False),
+    H(b"/h/te", body=b"not chunked at all", headers=[(b"content-type", b"text/plain"), (b"transfer-encoding", b"chunked"), (b"x-tag", b"TE")],
+      spref=0, compress=False),
+    # a head larger than the 2 KiB buffer send_response writes it through
+    H(b"/h/long", body=b"long head", headers=[(b"content-type", b"text/plain")] + [(b"set-cookie", b"k%d=" % j + b"v" * 300) for j in range(9)] + [(b"x-tag", b"L")],
+      spref=0, compress=False),
 ]
+# only beside the larger files (every case carries its whole configuration)
+HBIG = H(b"/h/big", body=_blob(66000, 5), headers=[(b"content-type", b"application/octet-stream")], spref=2, compress=False)
 READERS = [(b"/h/r", 1000), (b"/h/r5", 5)]
+
+
+def S(path, kind, announced=0, chunks=()):
+    """a handler whose reply carries a future: kind 0 = kvarn's stream_body() on the file of that path, 1 = with_future
+    (no length), 2 = with_future_and_len(announced), 3 = with_future and a content-length header of the handler's own"""
+    return xl(xb(path), xn(kind), xn(announced), xlist([xb(c) for c in chunks]))
+
+
+STREAMS = [S(b"/s/file.txt", 0), S(b"/s/e.txt", 0), S(b"/s/missing.txt", 0), S(b"/s/big.bin", 0), S(b"/s/huge.bin", 0),
+           S(b"/st/len", 2, 11, [b"hello ", b"", b"world"]), S(b"/st/len0", 2, 0, []),
+           S(b"/st/nolen", 1, 0, [b"abc", b"", b"defg"]), S(b"/st/own", 3, 10, [b"own ", b"length"])]
+NOLEN = b"/st/nolen"
 TARGETS = [b"/f.txt", b"/f.txt", b"/big.txt", b"/e.txt", b"/dir/g.txt", b"/missing.txt", b"/", b"/dir/", b"/./f.txt", b"/h/a", b"/h/a", b"/h/c", b"/h/n",
-           b"/h/e", b"/h/r", b"/h/r5", b"/h/k", b"/h/q", b"/h/q?x=1", b"/h/m", b"/h/x", b"/h/u", b"/h/l", b"/f.txt?v=2", b"/h/zz"]
+           b"/h/e", b"/h/r", b"/h/r5", b"/h/k", b"/h/q", b"/h/q?x=1", b"/h/m", b"/h/x", b"/h/u", b"/h/l", b"/f.txt?v=2", b"/h/zz",
+           b"/s/file.txt", b"/s/file.txt", b"/s/e.txt", b"/s/missing.txt", b"/st/len", b"/st/len", b"/st/len0", b"/st/own", b"/h/n2", b"/h/nm", b"/h/te",
+           b"/h/big", b"/./s/file.txt", b"/h/long"]
 ACCEPT = [None, None, None, None, b"gzip", b"br", b"identity", b"gzip, br", b"*", b"zstd, gzip;q=0.5", b"deflate", b"gzip", b"br", b"zstd",
           b"identity;q=0", b"gzip;q=0, identity"]
 RANGES = [None, None, None, None, b"bytes=0-4", b"bytes=5-", b"bytes=2-2", b"bytes=0-0", b"bytes=100-200", b"bytes=3-2", b"bytes=0-99999", b"bytes=19-19",
-          b"bytes=20-25", b"items=0-4", b"bytes=-5"]
+          b"bytes=20-25", b"items=0-4", b"bytes=-5", b"bytes=32-40", b"bytes=33-34"]
 IMS = [None, None, None, b"@T+3600", b"@T-3600", b"yesterday"]
 ORIGIN = [None, None, None, b"http://evil.test", b"http://localhost"]
+METHODS = [b"GET"] * 10 + [b"HEAD"] * 6 + [b"POST"] * 6 + [b"OPTIONS"] * 4 + [b"PUT"] * 2 + [b"DELETE", b"PATCH", b"TRACE", b"CONNECT"]
+BODY_METHODS = (b"POST", b"PUT", b"DELETE", b"PATCH")
+HOST = b"localhost"
+# flags of a request (harness/src/c08.rs)
+F_NOHOST, F_SHUTDOWN, F_HTTP10 = 1, 2, 4
 
 
-def make_cfg(cache=True, default_ext=False, disable_ims=False, limit=0, server=False, wait_close=0):
+def f_pieces(n):
+    return n << 8
+
+
+def f_tail(k):
+    return k << 24
+
+
+def make_cfg(cache=True, default_ext=False, disable_ims=False, limit=0, server=False, wait_close=0, files=FILES, retry=True, sndbuf=0):
     return cfg(cache=cache, default_ext=default_ext, disable_ims=disable_ims,
-               handlers=HANDLERS, files=[xl(xb(p), xb(c)) for p, c in FILES],
+               handlers=HANDLERS + ([HBIG] if files is not FILES else []), files=[xl(xb(p), xb(c)) for p, c in files],
                readers=[xl(xb(p), xn(l)) for p, l in READERS], limit=xn(limit), server=xn(1 if server else 0),
-               wait_close=xn(wait_close), report=[xb(r) for r in REPORT])
+               wait_close=xn(wait_close), report=[xb(r) for r in REPORT], streams=STREAMS, retry=xn(1 if retry else 0), sndbuf=xn(sndbuf))
 
 
 def R(method, target, headers=(), body=b"", early=0, flags=0):
     return xl(xb(method), xb(target), xlist([xl(xb(k), xb(v)) for k, v in headers]), xb(body), xn(early), xn(flags))
+
+
+def head_len(method, target, headers, host=HOST):
+    """bytes of the request head as the harness writes it"""
+    n = len(method) + 1 + len(target) + len(b" HTTP/1.1\r\nhost: ") + len(host) + 2
+    for k, v in headers:
+        n += len(k) + 2 + len(v) + 2
+    return n + 2
+
+
+def R_sized(method, target, headers, size, body=b"", early=0, flags=0):
+    """the request with a padding header that makes its head exactly `size` bytes long (None if it cannot)"""
+    hs = list(headers)
+    base = head_len(method, target, hs + [(b"x-pad", b"")])
+    if size < base:
+        return None
+    hs.append((b"x-pad", b"p" * (size - base)))
+    assert head_len(method, target, hs) == size
+    return R(method, target, hs, body, early, flags)
 
 
 def conn_case(c, reqs, kind, spec=True, comp=CONN):
@@ -169,9 +311,15 @@ def rand_body(rng, n):
     return bytes(rng.choice(b"abcdefghijklmnopqrstuvwxyz0123456789 \r\nGETPOSTHTTP/1.1") for _ in range(n))
 
 
+# request-body lengths: around the 4096-byte window of Http1Body::drain and the 512-byte first read of the head
+BODY_LENS = [0, 0, 1, 4, 5, 6, 10, 31, 100, 700, 4095, 4096, 4097, 5000, 8192, 8292, 12388, 70000]
+
+
 def rand_request(rng, body_ok=True, origin_p=1.0):
-    method = rng.choice([b"GET"] * 5 + [b"HEAD"] * 3 + [b"POST"] * 3 + [b"OPTIONS"] * 2 + [b"PUT"])
+    method = rng.choice(METHODS)
     target = rng.choice(TARGETS)
+    if target == b"/h/m" and method not in METHOD_CODE and method != b"PUT":
+        method = b"PUT"        # that handler echoes the method's name; the model knows the other methods as one
     hs = []
     a, r, i, o = rng.choice(ACCEPT), rng.choice(RANGES), rng.choice(IMS), rng.choice(ORIGIN)
     if a is not None and b"q=0" in a and rng.random() < 0.6:
@@ -185,14 +333,29 @@ def rand_request(rng, body_ok=True, origin_p=1.0):
     if o is not None and rng.random() < origin_p:
         hs.append((b"origin", o))
     body, early = b"", 0
-    if method in (b"POST", b"PUT") and body_ok:
-        n = rng.choice([0, 0, 1, 4, 5, 6, 10, 31, 100, 700, 5000, 70000])
+    if method in BODY_METHODS and body_ok:
+        n = rng.choice(BODY_LENS)
         if n or rng.random() < 0.5:
             body = rand_body(rng, n)
             hs.append((b"content-length", str(n).encode()))
-            early = rng.choice([0, 0, n, n // 2, min(n, 3), n]) if n <= 300 else rng.choice([0, 0, 100, 200])
+            # the part of the body that arrives with the head: nothing, all, or such that 4096 / 8192 bytes are left
+            early = rng.choice([0, 0, n, n // 2, min(n, 3), n]) if n <= 300 else rng.choice([0, 0, 100, 200, n - 4096 if n > 4096 else 0])
     rng.shuffle(hs)
-    return R(method, target, hs, body, early)
+    flags = 0
+    u = rng.random()
+    if u < 0.04:
+        flags |= F_HTTP10
+    elif u < 0.08:
+        flags |= f_tail(rng.choice([1, 2, 3, 4]))          # the blank line of the head arrives in a segment of its own
+    elif u < 0.10:
+        flags |= f_pieces(rng.choice([1, 2, 3, 7, 64]))     # the head arrives byte by byte / in small pieces
+    if rng.random() < 0.10:
+        # a head whose length sits on a boundary of the server's reads (512-byte first read, then a growing buffer)
+        size = rng.choice([511, 512, 513, 514, 515, 1023, 1024, 1025, 1026, 1535, 1536, 1537, 2047, 2048, 2049, 2050, 4095, 4096, 4097])
+        sized = R_sized(method, target, hs, size, body, early, flags)
+        if sized is not None:
+            return sized
+    return R(method, target, hs, body, early, flags)
 
 
 def rand_sequence(rng, n, origin_p=1.0):
@@ -208,6 +371,29 @@ def rand_sequence(rng, n, origin_p=1.0):
     return reqs[:n]
 
 
+def head_sweep(rng, sizes, per_conn=12):
+    """persistent connections on which every request has a head of one of the given lengths"""
+    out, cur = [], []
+    for size in sizes:
+        m = rng.choice([b"GET", b"GET", b"HEAD", b"POST", b"OPTIONS"])
+        t = rng.choice([b"/f.txt", b"/h/a", b"/e.txt", b"/h/k", b"/missing.txt", b"/s/file.txt", b"/st/len"])
+        hs, body, early = [], b"", 0
+        if m == b"POST" and rng.random() < 0.7:
+            n = rng.choice([1, 5, 100, 600])
+            body, early = rand_body(rng, n), rng.choice([0, n, n // 2])
+            hs.append((b"content-length", str(n).encode()))
+        r = R_sized(m, t, hs, size, body, early)
+        if r is None:
+            continue
+        cur.append(r)
+        if len(cur) == per_conn:
+            out.append(cur)
+            cur = []
+    if cur:
+        out.append(cur)
+    return out
+
+
 def generate(rng, tier):
     cases = []
     thorough = tier == "thorough"
@@ -219,6 +405,11 @@ def generate(rng, tier):
     cases.append(conn_case(plain, [R(b"POST", b"/f.txt", [(b"content-length", b"10")], b"0123456789", 5), R(b"GET", b"/f.txt")], "corpus-unread-late-body"))
     cases.append(conn_case(plain, [R(b"POST", b"/h/r5", [(b"content-length", b"12")], b"GET / HTTP/1", 0), R(b"GET", b"/h/k"), R(b"GET", b"/h/k")], "corpus-unread-late-body"))
     cases.append(conn_case(plain, [R(b"POST", b"/h/a", [(b"content-length", b"70000")], rand_body(rng, 70000), 100), R(b"HEAD", b"/h/a"), R(b"GET", b"/h/a")], "corpus-unread-late-body"))
+    # exactly one / two windows of Http1Body::drain are left unread; a reader whose body does not fit the first read of the head
+    for n, early in ((4096, 0), (8192, 0), (4196, 100), (8292, 100), (4097, 0), (4095, 0)):
+        cases.append(conn_case(plain, [R(b"POST", b"/h/a", [(b"content-length", str(n).encode())], rand_body(rng, n), early), R(b"GET", b"/h/k"),
+                                       R(b"POST", b"/h/r", [(b"content-length", b"1000")], rand_body(rng, 1000), rng.choice([0, 300, 1000])), R(b"GET", b"/h/k")],
+                               "corpus-drain-window"))
     lim2 = make_cfg(limit=2)
     cases.append(conn_case(lim2, [R(b"GET", b"/f.txt"), R(b"GET", b"/f.txt"), R(b"HEAD", b"/f.txt"), R(b"GET", b"/f.txt")], "corpus-429-head"))
     cases.append(conn_case(lim2, [R(b"GET", b"/f.txt"), R(b"GET", b"/f.txt"), R(b"POST", b"/h/r", [(b"content-length", b"4")], b"late", 0), R(b"GET", b"/f.txt")], "corpus-429-head"))
@@ -233,25 +424,83 @@ def generate(rng, tier):
     cases.append(conn_case(plain, [R(b"GET", b"/f.txt"), R(b"GET", b"/f.txt", [(b"if-modified-since", b"@T+3600")]), R(b"HEAD", b"/f.txt", [(b"if-modified-since", b"@T+3600")]),
                                    R(b"GET", b"/f.txt", [(b"if-modified-since", b"@T+3600"), (b"range", b"bytes=0-3")]), R(b"GET", b"/f.txt")], "corpus-304"))
     cases.append(conn_case(plain, [R(b"GET", b"/h/n"), R(b"GET", b"/h/x"), R(b"GET", b"/h/u"), R(b"GET", b"/h/l"), R(b"HEAD", b"/h/l"), R(b"OPTIONS", b"/f.txt"), R(b"GET", b"/h/e")], "corpus-handlers"))
+    # the five defects of the send path (fixed: 537474e 1d0a5e7 feabc71 b4638db c151144)
+    cases.append(conn_case(plain, [R(b"HEAD", b"/s/file.txt"), R(b"GET", b"/f.txt"), R(b"HEAD", b"/st/len"), R(b"GET", b"/st/len"), R(b"GET", b"/f.txt")], "corpus-stream-head"))
+    cases.append(conn_case(plain, [R(b"GET", b"/s/file.txt", [(b"range", b"bytes=0-99999")]), R(b"GET", b"/s/file.txt", [(b"range", b"bytes=50-60")]),
+                                   R(b"GET", b"/s/file.txt", [(b"range", b"bytes=5-9")]), R(b"HEAD", b"/s/file.txt", [(b"range", b"bytes=30-40")]),
+                                   R(b"GET", b"/s/file.txt", [(b"range", b"bytes=32-32")]), R(b"GET", b"/s/file.txt", [(b"range", b"bytes=33-33")]),
+                                   R(b"GET", b"/s/e.txt"), R(b"GET", b"/s/missing.txt"), R(b"POST", b"/s/file.txt"), R(b"GET", b"/f.txt")], "corpus-stream-range"))
+    cases.append(conn_case(plain, [R(b"GET", b"/f.txt"), R(b"GET", NOLEN), R(b"GET", b"/f.txt")], "corpus-stream-nolen"))
+    cases.append(conn_case(plain, [R(b"GET", b"/f.txt"), R(b"HEAD", NOLEN), R(b"GET", b"/f.txt")], "corpus-stream-nolen"))
+    # a stream of unknown length that the handler frames itself (its own content-length): the connection is kept
+    cases.append(conn_case(plain, [R(b"GET", b"/st/own"), R(b"HEAD", b"/st/own"), R(b"GET", b"/st/own", [(b"range", b"bytes=1-2")]), R(b"GET", b"/f.txt")], "corpus-stream-own-length"))
+    cases.append(conn_case(plain, [R(b"GET", b"/h/n2"), R(b"GET", b"/f.txt"), R(b"GET", b"/h/nm"), R(b"HEAD", b"/h/n2"), R(b"GET", b"/h/n2", [(b"range", b"bytes=0-3")]),
+                                   R(b"POST", b"/h/nm"), R(b"GET", b"/f.txt")], "corpus-bodyless-with-body"))
+    cases.append(conn_case(plain, [R(b"GET", b"/h/te"), R(b"GET", b"/f.txt"), R(b"HEAD", b"/h/te"), R(b"GET", b"/h/te", [(b"range", b"bytes=4-10")]), R(b"GET", b"/f.txt")], "corpus-transfer-encoding"))
+    # responses larger than a stream_body chunk / than what a socket takes in one write, whole, ranged, coded and streamed
+    mid = make_cfg(files=FILES_M, sndbuf=4096)      # the server's socket takes a few kilobytes per write
+    cases.append(conn_case(mid, [R(b"GET", b"/m.bin"), R(b"GET", b"/f.txt"), R(b"HEAD", b"/m.bin"), R(b"GET", b"/m.bin", [(b"range", b"bytes=65535-65537")]),
+                                 R(b"GET", b"/s/big.bin"), R(b"HEAD", b"/s/big.bin"), R(b"GET", b"/s/big.bin", [(b"range", b"bytes=65530-69999")]),
+                                 R(b"GET", b"/m.bin", [(b"accept-encoding", b"gzip")]), R(b"GET", b"/m.bin", [(b"accept-encoding", b"gzip"), (b"range", b"bytes=100-65999")]),
+                                 R(b"GET", b"/m.bin", [(b"accept-encoding", b"br"), (b"range", b"bytes=0-69999")]), R(b"GET", b"/h/big"), R(b"GET", b"/f.txt")], "corpus-large"))
+    huge = make_cfg(files=FILES_HUGE, sndbuf=rng.choice([0, 4096]))
+    cases.append(conn_case(huge, [R(b"GET", b"/huge.bin"), R(b"GET", b"/f.txt"), R(b"HEAD", b"/huge.bin"), R(b"GET", b"/f.txt")], "corpus-huge"))
+    cases.append(conn_case(huge, [R(b"GET", b"/s/huge.bin"), R(b"GET", b"/f.txt"), R(b"GET", b"/s/huge.bin", [(b"range", b"bytes=1299990-1400000")]), R(b"GET", b"/f.txt")], "corpus-huge"))
+    # heads larger than the 2 KiB buffer of send_response (a long handler header) are in /h/long below; request heads on the
+    # boundaries of the server's reads, first alone, then the blank line split off by the client
+    for seq in head_sweep(rng, [511, 512, 513, 514, 515, 1023, 1024, 1025, 1026]):
+        cases.append(conn_case(plain, seq, "corpus-head-length"))
+    cases.append(conn_case(plain, [R(b"GET", b"/f.txt", flags=f_tail(k)) for k in (1, 2, 3, 4)] + [R(b"POST", b"/h/r", [(b"content-length", b"3")], b"abc", 3, flags=f_tail(1)),
+                                   R(b"GET", b"/f.txt", flags=f_pieces(1)), R(b"HEAD", b"/h/a", flags=f_pieces(3)), R(b"GET", b"/f.txt")], "corpus-head-split"))
+    cases.append(conn_case(plain, [R(b"GET", b"/f.txt", flags=F_HTTP10), R(b"HEAD", b"/f.txt", flags=F_HTTP10), R(b"GET", b"/h/a", [(b"connection", b"keep-alive")], flags=F_HTTP10),
+                                   R(b"GET", b"/f.txt")], "corpus-http10"))
+    cases.append(conn_case(plain, [R(b"TRACE", b"/f.txt"), R(b"CONNECT", b"/f.txt"), R(b"DELETE", b"/f.txt", [(b"content-length", b"3")], b"abc", 0),
+                                   R(b"PATCH", b"/h/r", [(b"content-length", b"3")], b"abc", 1), R(b"TRACE", b"/h/a"), R(b"GET", b"/f.txt")], "corpus-methods"))
     # ---- client behaviour outside the property (compared with the model, no oracle): the body never arrives
-    cases.append(conn_case(make_cfg(wait_close=5000), [R(b"GET", b"/f.txt"), R(b"POST", b"/f.txt", [(b"content-length", b"10")], b"01234", 2, flags=2)], "client-short-body", spec=False))
-    cases.append(conn_case(make_cfg(limit=1, wait_close=5000), [R(b"GET", b"/f.txt"), R(b"GET", b"/f.txt"), R(b"HEAD", b"/f.txt"), R(b"GET", b"/f.txt"), R(b"GET", b"/f.txt")], "limiter-drop", spec=False))
+    cases.append(conn_case(make_cfg(wait_close=2500, retry=False), [R(b"GET", b"/f.txt"), R(b"POST", b"/f.txt", [(b"content-length", b"10")], b"01234", 2, flags=2)], "client-short-body", spec=False))
+    cases.append(conn_case(make_cfg(limit=1, wait_close=2500, retry=False), [R(b"GET", b"/f.txt"), R(b"GET", b"/f.txt"), R(b"HEAD", b"/f.txt"), R(b"GET", b"/f.txt"), R(b"GET", b"/f.txt")], "limiter-drop", spec=False))
 
     # ---- generated histories
-    nseq = 9000 if thorough else 280
+    nseq = 9000 if thorough else 250
     for k in range(nseq):
         n = rng.randint(1, 12)
         limit = rng.choice([0] * 5 + [4, 5, 6])
         dext = rng.random() < 0.3
-        c = make_cfg(cache=rng.random() < 0.7, default_ext=dext, disable_ims=rng.random() < 0.15, limit=limit)
+        files = FILES_M if rng.random() < 0.08 else FILES
+        c = make_cfg(cache=rng.random() < 0.7, default_ext=dext, disable_ims=rng.random() < 0.15, limit=limit, files=files,
+                     sndbuf=4096 if files is FILES_M or rng.random() < 0.2 else 0)
         # with the default extensions an Origin header makes the rest of the history unpredicted (CORS, C13): keep it rare there
         reqs = rand_sequence(rng, n, origin_p=0.15 if dext else 1.0)
-        last_nohost = rng.random() < 0.06
-        if last_nohost:
+        if files is FILES_M:
+            reqs[rng.randrange(len(reqs))] = R(rng.choice([b"GET", b"HEAD"]), rng.choice([b"/m.bin", b"/s/big.bin"]),
+                                               [(b"range", b"bytes=%d-%d" % (rng.choice([0, 65535, 65536, 69990]), rng.choice([65536, 69999, 99999])))] if rng.random() < 0.5 else [])
+        kind = "history-limited" if limit else "history"
+        u = rng.random()
+        if u < 0.06:
             m = rng.choice([b"GET", b"HEAD", b"POST"])
             reqs[-1] = R(m, rng.choice(TARGETS), flags=1)
-            c = make_cfg(cache=True, limit=limit, wait_close=5000)
-        cases.append(conn_case(c, reqs, "history-nohost-last" if last_nohost else ("history-limited" if limit else "history")))
+            c = make_cfg(cache=True, limit=limit, wait_close=2500, retry=False)
+            kind = "history-nohost-last"
+        elif u < 0.16:
+            # a stream of unknown length somewhere: it is the last answer of the connection
+            reqs[rng.randrange(len(reqs))] = R(rng.choice([b"GET", b"GET", b"HEAD", b"POST"]), NOLEN, [(b"range", b"bytes=1-2")] if rng.random() < 0.3 else [])
+            kind = "history-closing"
+        cases.append(conn_case(c, reqs, kind))
+    # ---- histories that cross the limiter's drop level (3 x max): 429 answers, then the connection is closed unanswered
+    for k in range(200 if thorough else 8):
+        mx = rng.choice([1, 2, 2, 3])
+        n = rng.randint(3 * mx, 3 * mx + 3)
+        reqs = [R(rng.choice([b"GET", b"GET", b"HEAD", b"POST", b"OPTIONS"]), rng.choice([b"/f.txt", b"/h/a", b"/missing.txt", b"/h/k", b"/s/file.txt"])) for _ in range(n)]
+        cases.append(conn_case(make_cfg(limit=mx, wait_close=2500, retry=False), reqs, "history-limiter-drop", spec=False))
+    # ---- sweeps of the request-head length over the boundaries of the server's reads, on persistent connections
+    sizes = list(range(505, 520)) + list(range(1019, 1030)) + [1535, 1536, 1537] + list(range(2045, 2052)) + [3071, 3072, 3073] + list(range(4093, 4100)) + [8191, 8192, 8193]
+    if thorough:
+        sizes += list(range(200, 4200, 1))
+    else:
+        sizes += [rng.randrange(140, 9000) for _ in range(24)] + [512 * k + d for k in range(3, 16) for d in (0, 1)]
+    rng.shuffle(sizes)
+    for seq in head_sweep(rng, sizes):
+        cases.append(conn_case(make_cfg(cache=rng.random() < 0.7), seq, "head-length-sweep"))
     if thorough:
         # the same through a RunConfig::execute server on a loopback port (its accept loop shares the limiter: disabled)
         for k in range(1000):
@@ -273,6 +522,9 @@ def generate(rng, tier):
             for _ in range(rng.choice([1, 1, 1, 2])):
                 v = bytes(rng.choice(b"abcXYZ019 ;=,/\t\"~\x80\xff") for _ in range(rng.randint(0, 12)))
                 hs.append(xl(xb(n), xb(v)))
+        if k % 50 == 0:
+            # a head larger than the 2 KiB buffer the head is written through
+            hs += [xl(xb(b"x-big-%d" % j), xb(b"v" * rng.randint(100, 400))) for j in range(rng.randint(6, 12))]
         body = rand_body(rng, rng.choice([0, 0, 1, 10, 50]))
         cases.append(Case("h1w.print", xl(xn(version), xn(status), xlist(hs), xb(body)), None, {"kind": "print"}, "dev"))
     return cases
@@ -281,34 +533,52 @@ def generate(rng, tier):
 # ---------------------------------------------------------------------------------------------------
 # second stage: everything the server wrote goes through the extracted Coq parser
 # ---------------------------------------------------------------------------------------------------
+_DRV = None          # the model driver and the spec outputs of the run, for outputs that arrive unstaged (runner's retries)
+_SPEC = {}
+
+
 def _methods(c):
     return [METHOD_CODE.get(r[1][0][1], 4) for r in c.x[1][1][1]]
 
 
-def _stage2(cases, impl, drv):
+def _closing(c, spec):
+    """the property's expectation says: the last answer is a stream of unknown length, ended by the close"""
+    sp = spec.get(c.id)
+    if not sp:
+        return False
+    sx = xparse(sp)
+    return sx[0] == "L" and len(sx[1]) == 5 and sx[1][3][1] == 1
+
+
+def _stage2(cases, impl, drv, spec):
     lines, meta = [], {}
     for c in cases:
         if not c.comp.startswith("h1w.conn") or c.id not in impl:
             continue
         x = xparse(impl[c.id])
-        if x[0] != "L" or len(x[1]) != 6:
+        if x[0] != "L" or len(x[1]) != 8:
             continue
-        raw, final, sent, answered, confused, frames = x[1]
+        raw, final, sent, answered, confused, frames, attempts, slow = x[1]
         ms = _methods(c)
         k = sent[1] if confused[1] else answered[1]
-        lines.append("%s h1w.parse %s" % (c.id, xtext(xl(xlist([xn(m) for m in ms[:k]]), raw))))
-        meta[c.id] = (final, sent, answered, confused, frames, raw)
+        comp = "h1w.parse_closing" if _closing(c, spec) else "h1w.parse"
+        lines.append("%s %s %s" % (c.id, comp, xtext(xl(xlist([xn(m) for m in ms[:k]]), raw))))
+        meta[c.id] = (final, sent, answered, confused, frames, attempts, slow)
     parsed = kv._run_sharded(drv, lines) if lines else {}
-    for cid, (final, sent, answered, confused, frames, raw) in meta.items():
+    for cid, (final, sent, answered, confused, frames, attempts, slow) in meta.items():
         p = xparse(parsed[cid]) if cid in parsed else ("L", [("N", 97)])
-        impl[cid] = xtext(xl(p, final, sent, answered, confused, frames, raw))
+        # the raw bytes stay in the replay only when they are small
+        impl[cid] = xtext(xl(p, final, sent, answered, confused, frames, attempts, slow))
 
 
-def _canon(body):
+def _canon(body, status=0):
+    """error pages are compared by class: the property does not fix their text"""
     if body.startswith(b"<!DOCTYPE html><html><head><meta name='color-scheme' content='dark light'><title>"):
         return b"ERRPAGE"
     if body.startswith(b"<html><head><title>429 Too Many Requests</title>"):
         return b"TOOMANY"
+    if status >= 400 and body[:1] == b"<" and body.rstrip().lower().endswith(b"</html>"):
+        return b"TOOMANY" if status == 429 else b"ERRPAGE"
     return body
 
 
@@ -326,21 +596,43 @@ def _select(hs):
     return out
 
 
-def _view(i):
+def _view(c, i):
     x = xparse(i)
-    if x[0] != "L" or len(x[1]) != 7:
+    if x[0] == "L" and len(x[1]) == 8 and x[1][0][0] == "B" and _DRV is not None:
+        # not yet through the second stage (a case the runner ran again)
+        tmp = {c.id: i}
+        _stage2([c], tmp, _DRV, _SPEC)
+        x = xparse(tmp[c.id])
+    if x[0] != "L" or len(x[1]) != 8:
         return None
-    p, final, sent, answered, confused, frames, _raw = x[1]
+    p, final, sent, answered, confused, frames, attempts, slow = x[1]
     resp = None
     if p[0] == "L" and len(p[1]) == 1:
         resp = p[1][0][1]
-    return {"resp": resp, "final": final[1], "sent": sent[1], "answered": answered[1], "confused": confused[1], "frames": frames[1]}
+    c.meta["attempts"] = attempts[1]
+    return {"resp": resp, "final": final[1], "sent": sent[1], "answered": answered[1], "confused": confused[1], "frames": frames[1],
+            "attempts": attempts[1], "slow": slow[1]}
+
+
+def _no_reason(b):
+    """a printed response with the reason phrase blanked: the phrases are the http crate's, no statement is about them"""
+    eol = b.find(b"\r\n")
+    if eol < 0:
+        return b
+    parts = b[:eol].split(b" ", 2)
+    if len(parts) < 2:
+        return b
+    return b" ".join(parts[:2]) + b" -" + b[eol:]
 
 
 def compare(c, i, m):
     if not c.comp.startswith("h1w.conn"):
+        if c.comp == "h1w.print":
+            xi, xm = xparse(i), xparse(m)
+            if xi[0] == "B" and xm[0] == "B":
+                return _no_reason(xi[1]) == _no_reason(xm[1])
         return i == m
-    v, mx = _view(i), xparse(m)
+    v, mx = _view(c, i), xparse(m)
     if v is None or mx[0] != "L" or len(mx[1]) != 2:
         return False
     preds, mfinal = mx[1][0][1], mx[1][1][1]
@@ -355,8 +647,8 @@ def compare(c, i, m):
     for k, (r, p) in enumerate(zip(v["resp"], preds)):
         if p[1] == [("N", 7)]:
             continue
-        ver, st, reason, hs, body = [y[1] for y in r[1]]
-        pver, pst, preason, phs, pbody = [y[1] for y in p[1]]
+        ver, st, _reason, hs, body = [y[1] for y in r[1]]
+        pver, pst, _preason, phs, pbody = [y[1] for y in p[1]]
         enc = _hdr(hs, b"content-encoding")
         sel = _select(hs)
         psel = [(h[1][0][1], h[1][1][1]) for h in phs]
@@ -368,8 +660,12 @@ def compare(c, i, m):
             # the range was applied to a coded representation shorter than the identity one (the 416 page itself is not coded)
             if ver != pver or _hdr(hs, b"connection") != dict(psel).get(b"connection"):
                 return False
+        elif has_range and st >= 400 and pst >= 400 and _hdr(hs, b"content-range") is not None:
+            # a range of an error page: which bytes and of how many depends on the page's text, which no statement fixes
+            if (ver, st) != (pver, pst) or _hdr(hs, b"connection") != dict(psel).get(b"connection"):
+                return False
         elif enc in (None, b"identity"):
-            if (ver, st, reason, sel, body) != (pver, pst, preason, psel, pbody):
+            if (ver, st, sel, _canon(body, st)) != (pver, pst, psel, _canon(pbody, pst)):
                 return False
         elif has_range:
             # a range of the compressed representation: status, content-range and bytes depend on the encoder
@@ -377,32 +673,43 @@ def compare(c, i, m):
                 return False
         else:
             fr = v["frames"][k][1]
-            if (ver, st, reason, sel) != (pver, pst, preason, psel):
+            if (ver, st, sel) != (pver, pst, psel):
                 return False
-            if not is_head and (fr[0][1] != 1 or fr[1][1] != _canon(pbody)):
+            if not is_head and (fr[0][1] != 1 or _canon(fr[1][1], st) != _canon(pbody, pst)):
                 return False
     return True
 
 
 def spec_ok(c, i, s):
     """the property on the implementation's bytes: the Coq parser accepts them as exactly one response per request, in
-    order (nothing left over), the connection is still usable, and HEAD announces the length GET gets"""
-    v, sx = _view(i), xparse(s)
-    if v is None or sx[0] != "L" or len(sx[1]) != 3:
+    order (nothing left over), the connection is still usable - or, after a stream of unknown length, closed by the server
+    with that stream as the last thing on it - and HEAD announces the length GET gets"""
+    v, sx = _view(c, i), xparse(s)
+    if v is None or sx[0] != "L" or len(sx[1]) != 5:
         return False
-    n, must_open = sx[1][0][1], sx[1][1][1]
+    n, must_open, closing = sx[1][0][1], sx[1][1][1], sx[1][3][1]
     c.meta["instance"] = sx[1][2][1]
+    c.meta["closing_instance"] = sx[1][4][1]
+    summary = "; ".join(_req_text(r) for r in c.x[1][1][1])
     if v["confused"] or v["resp"] is None or len(v["resp"]) != n or v["answered"] != n:
-        c.meta["why"] = "the strict client does not find exactly one well-formed response per request"
+        c.meta["why"] = ("the strict client does not find exactly one well-formed response per request (%d requests sent, %d answered%s%s)"
+                         % (v["sent"], v["answered"], ", then the client could not go on" if v["confused"] else "",
+                            "; the client waited in vain in each of %d attempts" % v["attempts"] if v["slow"] else "")) + " -- requests: " + summary
         return False
     if must_open and v["final"] != 0:
-        c.meta["why"] = "the server closed the connection"
+        c.meta["why"] = "the server closed the connection -- requests: " + summary
+        return False
+    if closing and v["final"] != 1:
+        c.meta["why"] = "a response without a length was written and the server did not close the connection -- requests: " + summary
+        return False
+    if closing and n and _hdr(v["resp"][n - 1][1][3][1], b"content-length") is None and _hdr(v["resp"][n - 1][1][3][1], b"connection") != b"close":
+        c.meta["why"] = "a response without a length does not say connection: close -- requests: " + summary
         return False
     reqs = c.x[1][1][1]
     for k in range(n - 1):
         a, b = reqs[k][1], reqs[k + 1][1]
         ms = {a[0][1], b[0][1]}
-        if ms == {b"GET", b"HEAD"} and a[1] == b[1] and a[2] == b[2] and not a[5][1] and not b[5][1]:
+        if ms == {b"GET", b"HEAD"} and a[1] == b[1] and a[2] == b[2] and not (a[5][1] & 1) and not (b[5][1] & 1):
             ra, rb = v["resp"][k][1], v["resp"][k + 1][1]
             sa, sb = ra[1][1], rb[1][1]
             cond = any(h[1][0][1] == b"if-modified-since" for h in a[2][1])
@@ -411,6 +718,21 @@ def spec_ok(c, i, s):
                     c.meta["why"] = "HEAD and GET of the same resource announce different lengths"
                     return False
     return True
+
+
+def _req_text(r):
+    m, t, hs, body, early, flags = [y[1] for y in r[1]]
+    out = "%s %s" % (m.decode("latin1"), t.decode("latin1"))
+    hl = head_len(m, t, [(h[1][0][1], h[1][1][1]) for h in hs])
+    hh = ", ".join("%s: %s" % (h[1][0][1].decode("latin1"), (h[1][1][1][:24] + b"..." if len(h[1][1][1]) > 24 else h[1][1][1]).decode("latin1")) for h in hs)
+    out += " [%s]" % hh if hh else ""
+    out += " (head %d B" % hl + (", body %d B of which %d with the head" % (len(body), min(early, len(body))) if body else "") + (", flags %#x" % flags if flags else "") + ")"
+    return out
+
+
+def harness_trouble(c, i):
+    """the server of a server-mode case did not come up in three attempts"""
+    return i.startswith("(L (N 95))") or i.startswith("(L (N 93)")
 
 
 def classify(c, i):
@@ -429,22 +751,34 @@ def directed(rng, mismatches):
     return cases
 
 
+def describe(c):
+    d = {"component": c.comp, "input": kv.pretty(c.x, 120), "profile": c.profile, "kind": c.meta.get("kind")}
+    return d
+
+
 def extra_coverage(cases, impl, model, spec):
-    un = sum(1 for c in cases if c.meta.get("unmodelled"))
-    nreq = sum(len(c.x[1][1][1]) for c in cases if c.comp.startswith("h1w.conn"))
-    unpred = sum(model.get(c.id, "").count("(L (N 7))") for c in cases if c.comp.startswith("h1w.conn"))
-    return {"connection_histories": sum(1 for c in cases if c.comp.startswith("h1w.conn")), "requests_sent": nreq,
-            "histories_that_are_instances_of_the_connection_theorem": sum(1 for c in cases if c.meta.get("instance") == 1),
-            "responses_framed_but_not_predicted": unpred, "histories_outside_the_connection_model": un}
+    conn = [c for c in cases if c.comp.startswith("h1w.conn")]
+    un = sum(1 for c in conn if c.meta.get("unmodelled"))
+    nreq = sum(len(c.x[1][1][1]) for c in conn)
+    unpred = sum(model.get(c.id, "").count("(L (N 7))") for c in conn)
+    again = [c for c in conn if c.meta.get("attempts", 1) > 1]
+    return {"connection_histories": len(conn), "requests_sent": nreq,
+            "histories_that_are_instances_of_the_connection_theorem": sum(1 for c in conn if c.meta.get("instance") == 1),
+            "histories_that_are_instances_of_the_closing_theorem": sum(1 for c in conn if c.meta.get("closing_instance") == 1),
+            "responses_framed_but_not_predicted": unpred, "histories_outside_the_connection_model": un,
+            "histories_run_again_after_a_client_timeout": [{"id": c.id, "kind": c.meta.get("kind"), "attempts": c.meta.get("attempts")} for c in again[:20]]}
 
 
 def main(tier, seed, replay):
+    global _DRV, _SPEC
     import runner
     orig = kv.run_cases
 
     def run_cases(cases, bins, drv, **kw):
+        global _DRV, _SPEC
         impl, model, spec = orig(cases, bins, drv, **kw)
-        _stage2(cases, impl, drv)
+        _DRV, _SPEC = drv, spec
+        _stage2(cases, impl, drv, spec)
         return impl, model, spec
 
     kv.run_cases = run_cases
@@ -454,10 +788,14 @@ def main(tier, seed, replay):
         kv.run_cases = orig
 
 
-LEVEL_TEXT = ("proved for all response sequences / all histories of the connection model: strict-client round trip, content-length = bytes "
-              "written, HEAD = GET's head without body, one response per request in order, fate of an unread request body; the model is "
-              "tied to kvarn by the differential run on every check")
-LEVEL_NOTE = ("two defects repaired on the way (unread late request body desynchronised the connection; 429/409 answers to HEAD carried a "
-              "body); the pre-repair behaviour is kept as refutation witnesses replayed on the real code")
+LEVEL_TEXT = ("proved for all response sequences / all histories of the connection model, streamed replies included: strict-client round "
+              "trip, content-length = bytes written (body + what the reply's future streams), HEAD = GET's head without body however the body "
+              "is produced, one response per request in order on a kept connection, a stream of unknown length is close-delimited and the "
+              "last thing on its connection (closing_history), stream_body announces what it sends, fate of an unread request body; the "
+              "model is tied to kvarn by the differential run on every check (that every request head is recognised whatever its length "
+              "and segmentation is swept, not proved: C07's reader)")
+LEVEL_NOTE = ("seven defects repaired on the way (unread late request body; 429/409 answers to HEAD carried a body; a future's body written "
+              "for HEAD; stream_body announcing more than the file holds; a stream of unknown length on a kept keep-alive connection; a body "
+              "after 204/304; transfer-encoding beside content-length); the pre-repair behaviour is kept as refutation witnesses")
 TECHNIQUE = ("Coq proof (printer/strict-parser round trip for all response sequences; send-path and connection-loop invariants) + "
              "differential correspondence model vs. implementation, every received byte parsed by the extracted Coq parser")
